@@ -2,6 +2,7 @@
 from vlib.framework import PUnit, LUnit, BUnit
 from contracts import topology as T
 from bounded import b_top
+from vlib import selftest
 
 
 def build(tier, seed):
@@ -13,6 +14,7 @@ def build(tier, seed):
         PUnit("c6c12-to-sigma-epsilon", [T.CONV], T.REG),
         PUnit("define-substitution", [T.REPLACE_DEFINED], T.REG),
         LUnit("define-offsets-monotone", T.lemma_off_monotone),
+        BUnit("engine-cross-check", selftest.unit),       # CPython vs the symbolic executor on concrete inputs (verifier self-check)
     ] + [u for u in b_top.UNITS if u.name == "c09-preprocess"]
     return {"units": units, "level": "other",
             "notes": "contract-based deductive verification (pyvc: VCs generated from the real AST, z3/cvc5)"}
